@@ -569,6 +569,27 @@ def clause_h(c: Check):
     r = single_return_expr(rt)
     ok = isinstance(r, ast.Call) and r.args and isinstance(r.args[0], ast.Constant) and r.args[0].value is True
     c.expect(ok, 'C15-h', 'Applier._result_true', '_result_true does not build a true result', rt.loc())
+    # `matches` (non-full): a listed file whose matcher does not match makes the verdict False on every path - also
+    # when the remaining listed files are found and do match afterwards (the evaluation may or may not stop at it)
+    MN = 'exactly_lib.impls.types.files_matcher.impl.matches.matches_non_full'
+    fn = ix.func(MN + ':_Applier.apply')
+    mr = ix.cls('exactly_lib.type_val_prims.matcher.matching_result:MatchingResult')
+    hooks = ForkHooks(ix, loop_bound=2)
+    hooks.fork_on(elem, [('T', lambda: K(Record(mr, {'value': True, 'trace': Sym('trace')}))),
+                         ('F', lambda: K(Record(mr, {'value': False, 'trace': Sym('trace')})))])
+    hooks.inline_set = {rt}
+    n_f = 0
+    for p in util.func_paths(ix, fo, fn, hooks):
+        labs = labels_of(p)
+        if 'F' not in labs:
+            continue
+        n_f += 1
+        got = _bool_of_result(ix, p.val) if p.kind == 'return' else None
+        c.expect(got is False, 'C15-h', 'matches-non-full/a-non-matching-file-decides/%s' % '-'.join(labs),
+                 'the matchers of the listed files give %s and the verdict is %s: a listed file that does not satisfy '
+                 'its matcher is overlooked' % (labs, got if got is not None else (
+                     util.describe(p.val) if p.kind == 'return' else p.kind)), fn.loc())
+    c.floor('C15-h', 'paths of matches (non-full) with a non-matching file', n_f, 1)
     # the count check precedes and a different number of files is a mismatch
     nf = ix.func(MF + ':_Applier._start_w_num_files_check')
 
